@@ -14,6 +14,13 @@
  *        dict  = raw content loaded with ZSTD_CCtx_loadDictionary_advanced(..., ZSTD_dct_rawContent)
  *        -> <hex frame | err <class>> calls=<srcSize>:<cap>:<r0>.<r1>.<r2>:<what was returned: F C Z X R<n> or M = plan entry longer than the buffer>;...
  *   prodgen <id=val,...|-> <hex-src> <plan>      same producer, ZSTD_generateSequences -> off:ll:ml:rep list | err <class>
+ *   cseqx <id=val,...|-> <hex-src> <off:ll:ml,...|-> <mode> [hex]      ZSTD_compressSequences (no producer) on a fresh context and an exact-size
+ *        sequence array, any parameter (ZSTD_c_nbWorkers = 400 included), with the history given by <mode>:
+ *                -            none
+ *                P            ZSTD_CCtx_refPrefix(hex) (raw content)
+ *                D            ZSTD_CCtx_loadDictionary_advanced(hex, byCopy, rawContent)
+ *                C            ZSTD_createCDict_advanced(hex, rawContent, level of the parameter list) + ZSTD_CCtx_refCDict
+ *        -> <hex frame | err <class>>
  *   mergeseq <off:ll:ml,...|->                   ZSTD_mergeBlockDelimiters on an exact-size heap array -> off:ll:ml list of the entries it returns | -
  *   genmerge <id=val,...|-> <hex-src>            ZSTD_generateSequences, then ZSTD_mergeBlockDelimiters on an exact-size copy
  *        -> <extracted off:ll:ml list|-> <merged off:ll:ml list|->  |  err <class>
@@ -115,6 +122,25 @@ int main(void) {
                 free(out);
             }
             free(st->entries); st->entries = NULL; free(in); free(d);
+        } else if (!strcmp(op, "cseqx")) {
+            char* ps = strtok(NULL, " "); size_t n, dn = 0; unsigned char* in = zv_unhex(strtok(NULL, " "), &n); char* sq = strtok(NULL, " "); char* mode = strtok(NULL, " "); char* dh = strtok(NULL, " ");
+            unsigned char* d = dh ? zv_unhex(dh, &dn) : NULL; size_t r; size_t ns = 0, cap = 16; ZSTD_Sequence* sv = (ZSTD_Sequence*)malloc(cap * sizeof *sv); ZSTD_Sequence* exact; char* t; char* s2 = NULL;
+            ZSTD_CCtx* fresh = ZSTD_createCCtx(); ZSTD_CDict* cd = NULL; int level = 3; size_t ocap; unsigned char* out;
+            { const char* q = ps; while (q && *q) { int id, val; if (sscanf(q, "%d=%d", &id, &val) == 2 && id == 100) level = val; q = strchr(q, ','); if (q) q++; } }
+            r = zv_apply(fresh, ps);
+            if (sq && sq[0] != '-') for (t = strtok_r(sq, ",", &s2); t; t = strtok_r(NULL, ",", &s2)) { unsigned a, b, c;
+                if (sscanf(t, "%u:%u:%u", &a, &b, &c) == 3) { if (ns == cap) { cap *= 2; sv = (ZSTD_Sequence*)realloc(sv, cap * sizeof *sv); } sv[ns].offset = a; sv[ns].litLength = b; sv[ns].matchLength = c; sv[ns].rep = 0; ns++; } }
+            exact = (ZSTD_Sequence*)malloc(ns ? ns * sizeof *sv : 1); memcpy(exact, sv, ns * sizeof *sv); free(sv);
+            ocap = ZSTD_compressBound(n) + 1024 + 4 * ns; out = (unsigned char*)malloc(ocap);
+            if (!ZSTD_isError(r) && mode && d) {
+                if (mode[0] == 'P') r = ZSTD_CCtx_refPrefix_advanced(fresh, d, dn, ZSTD_dct_rawContent);
+                else if (mode[0] == 'D') r = ZSTD_CCtx_loadDictionary_advanced(fresh, d, dn, ZSTD_dlm_byCopy, ZSTD_dct_rawContent);
+                else if (mode[0] == 'C') { ZSTD_compressionParameters cp = ZSTD_getCParams(level, n, dn); cd = ZSTD_createCDict_advanced(d, dn, ZSTD_dlm_byCopy, ZSTD_dct_rawContent, cp, ZSTD_defaultCMem);
+                    r = cd ? ZSTD_CCtx_refCDict(fresh, cd) : (size_t)-ZSTD_error_memory_allocation; }
+            }
+            if (!ZSTD_isError(r)) r = ZSTD_compressSequences(fresh, out, ocap, exact, ns, in, n);
+            if (ZSTD_isError(r)) printf("err %s\n", zv_errclass(r)); else { zv_puthex(out, r); putchar('\n'); }
+            ZSTD_freeCCtx(fresh); ZSTD_freeCDict(cd); free(exact); free(out); free(in); free(d);
         } else if (!strcmp(op, "mergeseq")) {
             char* sq = strtok(NULL, " "); size_t ns = 0, cap = 16, i, k; ZSTD_Sequence* sv = (ZSTD_Sequence*)malloc(cap * sizeof *sv); ZSTD_Sequence* exact; char* t; char* s2 = NULL;
             if (sq && sq[0] != '-') for (t = strtok_r(sq, ",", &s2); t; t = strtok_r(NULL, ",", &s2)) { unsigned a, b, c;
